@@ -549,7 +549,7 @@ exports.Output = Output;
 
 function cmp(a, b) { return (a < b) ? -1 : a > b ? 1 : 0; }
 
-function generateNameData(out, instructions, generateAliases) {
+function generateNameData(out, instructions, generateAliases, generateSortedIds) {
   const none = "Inst::kIdNone";
 
   const aliases = [];
@@ -598,11 +598,42 @@ function generateNameData(out, instructions, generateAliases) {
     instLast[alphaIndex] = `Inst::kId${inst.enum}`;
   }
 
+  // Instruction ids that are not in alphabetical order (AArch64: general purpose ids followed by SIMD ids that reuse
+  // names, instruction pairs kept together) are looked up through a table of ids sorted by name - one id per distinct
+  // name, the lowest one, with `kIdNone` at position 0 so that no real position is zero. The per-letter spans then
+  // refer to positions in that table.
+  const sortedIds = [];
+  if (generateSortedIds) {
+    const seen = Object.create(null);
+    const order = [];
+    for (let i = 0; i < instructions.length; i++) {
+      const displayName = instructions[i].displayName;
+      if (displayName && seen[displayName] === undefined) {
+        seen[displayName] = i;
+        order.push(i);
+      }
+    }
+    order.sort(function(a, b) { return cmp(instructions[a].displayName, instructions[b].displayName); });
+
+    sortedIds.push(none);
+    instFirst.fill(undefined);
+    instLast.fill(undefined);
+
+    for (let k = 0; k < order.length; k++) {
+      const inst = instructions[order[k]];
+      const alphaIndex = inst.displayName.charCodeAt(0) - 'a'.charCodeAt(0);
+      sortedIds.push(`Inst::kId${inst.enum}`);
+      if (instFirst[alphaIndex] === undefined)
+        instFirst[alphaIndex] = sortedIds.length - 1;
+      instLast[alphaIndex] = sortedIds.length - 1;
+    }
+  }
+
   var s = "";
   s += `const InstNameIndex InstDB::_inst_name_index = {{\n`;
   for (var i = 0; i < instFirst.length; i++) {
-    const firstId = instFirst[i] || none;
-    const lastId = instLast[i] || none;
+    const firstId = instFirst[i] || (generateSortedIds ? 0 : none);
+    const lastId = instLast[i] || (generateSortedIds ? 0 : none);
 
     s += `  { ${String(firstId).padEnd(22)}, ${String(lastId).padEnd(22)} + 1 }`;
     if (i !== 26 - 1)
@@ -616,6 +647,12 @@ function generateNameData(out, instructions, generateAliases) {
   s += instNameData.formatIndexTable("InstDB::_inst_name_index_table");
 
   let dataSize = instNameData.getSize() + 26 * 4;
+
+  if (generateSortedIds) {
+    s += `\n`;
+    s += "const uint16_t InstDB::_inst_name_sorted_id_table[] = {\n" + StringUtils.format(sortedIds, "  ", true, null) + "\n};\n";
+    dataSize += sortedIds.length * 2;
+  }
 
   if (generateAliases) {
     s += `\n`;
@@ -636,14 +673,15 @@ function generateNameData(out, instructions, generateAliases) {
 exports.generateNameData = generateNameData;
 
 class NameTable extends Task {
-  constructor(name, deps, generateAliases) {
+  constructor(name, deps, generateAliases, generateSortedIds) {
     super(name || "NameTable", deps);
     this.generateAliases = generateAliases;
+    this.generateSortedIds = generateSortedIds;
   }
 
   run() {
     const output = new Output();
-    generateNameData(output, this.ctx.insts, this.generateAliases);
+    generateNameData(output, this.ctx.insts, this.generateAliases, this.generateSortedIds);
 
     this.ctx.inject("NameData", output.content["NameData"], output.tableSize["NameData"]);
 
